@@ -279,7 +279,7 @@ fn main() {
                 let (head, calls): (Vec<&str>, Vec<&str>) = lines.iter().partition(|l| !l.starts_with("try { __log.push(S("));
                 for c in calls {
                     let one = format!("{}\n{}\n__log.join(\"|\")\n", head[..2.min(head.len())].join("\n"), c);
-                    let scn = props::c06::Scn { source: one, step_budget: 3_000_000, depth_limit: 1_000_000, answers_tape: rng::Tape::from_vec(vec![]), case: None, proc_case: None, isolated: false };
+                    let scn = props::c06::Scn { source: one, step_budget: 3_000_000, depth_limit: 1_000_000, answers_tape: rng::Tape::from_vec(vec![]), case: None, proc_case: None, isolated: false, gc_threshold: *[100u32, 1, 3][(i % 3) as usize..].first().unwrap_or(&100) };
                     let rep = framework::execute_caught(&props::c06::C06, &scn);
                     if let Some(f) = rep.failure {
                         let key = format!("{} {}", f.clause, f.observed.chars().take(90).collect::<String>());
